@@ -23,7 +23,7 @@ vars == <<cs, phase, res>>
 NR1 == {"float64", "int", "int8", "uint8", "int64", "uint64", "float32", "jsonNumber", "jsonNumberE", "namedInt", "negzero"}
 NR2 == {"float64", "int", "jsonNumber"}
 AR == {"any", "typed", "array", "arrayany"}
-OR == {"any", "typed", "namedkey"}
+OR == {"any", "typed", "namedkey", "numberkey"}     \* numberkey: map[json.Number]any (json.Number is a string-kind key type)
 Wraps == {<<>>, <<"ptr">>, <<"iface", "ptr">>}
 
 PlainScalars ==
@@ -36,7 +36,12 @@ PlainContainers ==
    EmptyObj, Obj([a |-> Num(R_1)]), Obj([a |-> Num(R_2)]), Obj([b |-> Num(R_1)]), Obj([a |-> Num(R_1), b |-> Num(R_2)]),
    Obj([a |-> Arr(<<Num(R_1)>>)]), Obj(("U_e1" :> Num(R_1))), Obj(("U_e2" :> Num(R_1))), Obj([a |-> Null]),
    Arr(<<Obj([a |-> Num(R_1)])>>)}
+\* null carried as a typed nil pointer (inside an interface element that is a non-nil interface holding nil)
+NilPtr == [t |-> "null", r |-> "nilptr"]
+EQNilPtr == {NilPtr, [t |-> "arr", e |-> <<NilPtr>>, r |-> "any"], [t |-> "arr", e |-> <<NilPtr>>, r |-> "arrayany"],
+             [t |-> "obj", m |-> [a |-> NilPtr], r |-> "any"], [t |-> "arr", e |-> <<NilPtr, [t |-> "null", r |-> "nil"]>>, r |-> "any"]}
 EQPool(z) ==
+  EQNilPtr \cup
   UNION {WithWraps(RepsOf(v, NR1, AR, OR), IF K >= 2 THEN Wraps ELSE {<<>>, <<"ptr">>}) : v \in PlainScalars}
   \cup UNION {WithWraps(RepsOf(v, NR2, AR, OR), {<<>>, <<"ptr">>}) : v \in PlainContainers}
 
